@@ -1144,6 +1144,10 @@ def add_sortable(writer, fieldname, facet, column=None):
             colwriter = column.writer(colfile)
             for docnum in reader.all_doc_ids():
                 v = catter.key_to_name(catter.key_for(None, docnum))
+                if v is None:
+                    # This document has no value in the field: leave the
+                    # column's default value for it
+                    continue
                 cv = field.to_column_value(v)
                 colwriter.add(docnum, cv)
             colwriter.finish(reader.doc_count_all())
